@@ -169,6 +169,8 @@ def check_property(prop, tier, seed, modules, jobs=None, only=None, verbose=Fals
     for mn in modules:
         m = importlib.import_module(mn)
         obs.extend(m.obligations(prop, tier, seed))
+    for o in obs:
+        o.tag = prop
     if only:
         obs = [o for o in obs if fnmatch.fnmatchcase(o.id, only)]
     ids = [o.id for o in obs]
